@@ -14,7 +14,12 @@ VERIF = os.path.dirname(os.path.dirname(os.path.dirname(
 
 MENU = ["energy2", "amp2ph", "amp2pphh", "ovl2", "m1phph", "t2_2", "psi1",
         "psi2", "get:i3j3a4b7", "generic:5", "amp2ph_k3c3", "expect2",
-        "energy3", "amp1pphh_i3", "norm2", "get:k3c3l3d3", "m2phph"]
+        "energy3", "amp1pphh_i3", "norm2", "get:k3c3l3d3", "m2phph",
+        # the same method with one argument changed: cache keys
+        "m1phph_nosub", "m1phph_kcld", "m0phph", "m0phph_nosub", "ovlisr2",
+        "tm1ph", "tm1ph_nosub", "ex1phph", "ex0phph", "ex0phph_nosub",
+        "ex0phph_2p", "t2_2_klcd", "t2_2_once", "energy2_re", "mvp1",
+        "mvp1_nosub"]
 # positions 1..12 are the menu of spec/History.tla
 SPEC_MENU = MENU[:12]
 
@@ -209,6 +214,12 @@ def run(chk):
     # make sure the interesting interplay is present in every run
     sample += [["psi1", "amp2ph_k3c3"], ["get:i3j3a4b7", "m2phph"],
                ["psi1", "psi1", "norm2", "psi2"], ["amp2ph", "amp2ph"]]
+    # one argument changed between two calls of the same cached method
+    pairs = [["m0phph", "m0phph_nosub"], ["m1phph_nosub", "m1phph", "m1phph_kcld"],
+             ["ex0phph_nosub", "ex0phph", "ex0phph_2p"], ["tm1ph_nosub", "tm1ph"],
+             ["t2_2_once", "t2_2", "t2_2_klcd"], ["energy2_re", "energy2"],
+             ["mvp1_nosub", "mvp1"], ["ex1phph", "tm1ph", "ovlisr2"]]
+    sample += pairs if not quick else r.sample(pairs, 4)
     seeds = [0, 1] if quick else [0, 1, 2, 12345]
     # reference: each request alone in a fresh process, hash seed 0
     needed = sorted({q for h in sample for q in h
